@@ -4,7 +4,8 @@ Trace == ndJsonDeserialize("trace.ndjson")
 VARIABLES l, viol
 tvars == <<o, l, viol>>
 TraceInit == o = InitVal /\ l = 1 /\ viol = {} /\ TLCSet(1, <<0, {}>>)
-Judge(ev, V) == viol' = viol \cup {<<ev.t, l, r>> : r \in V}
+\* (bounded: a build in which almost every event breaks a rule would otherwise make every state carry an ever larger set)
+Judge(ev, V) == viol' = IF Cardinality(viol) < 400 THEN viol \cup {<<ev.t, l, r>> : r \in V} ELSE viol
 Step(ev) ==
     CASE ev.e = "Init" -> o' = InitVal /\ UNCHANGED viol
       [] ev.e = "AddCall" -> o' = AddCallEff(ev.n) /\ UNCHANGED viol
